@@ -23,10 +23,21 @@ import (
 	"verif/engine/interp"
 )
 
-const (
-	verifRoot = "/verif"
-	repoRoot  = "/repo"
-)
+const repoRoot = "/repo"
+
+// verifRoot is the framework directory: $VERIF_ROOT, else the current
+// directory when it holds harness/ (the check script cds there), else /verif.
+var verifRoot = func() string {
+	if v := os.Getenv("VERIF_ROOT"); v != "" {
+		return v
+	}
+	if wd, err := os.Getwd(); err == nil {
+		if st, err := os.Stat(filepath.Join(wd, "harness")); err == nil && st.IsDir() {
+			return wd
+		}
+	}
+	return "/verif"
+}()
 
 func main() {
 	debug.SetGCPercent(800)
